@@ -67,8 +67,8 @@ func processSSDPNotify(raw []byte) (name packet.NameEntry, location string, err 
 		location = req.Header.Get("LOCATION")
 		cacheControl := req.Header.Get("CACHE-CONTROL")
 		options := strings.Split(cacheControl, "=")
-		if len(options)^2 == 0 { // make sure it is pairs of key / value
-			for i := range options {
+		if len(options)%2 == 0 { // make sure it is pairs of key / value
+			for i := 0; i+1 < len(options); i += 2 {
 				if strings.ToLower(options[i]) == "max-age" {
 					seconds, _ = strconv.Atoi(options[i+1])
 					break
